@@ -1063,9 +1063,20 @@ impl Sim {
                 }
                 self.step += 1;
                 self.crashes[n] += 1;
-                self.nodes[n] = None; // process dies between two events: every WAL record is whole
+                // process dies between two events (a kill, not an orderly shutdown): the WAL file
+                // keeps exactly the bytes that were on disk at that moment; whatever dropping the
+                // node object would still flush from user-space buffers is lost with the process
+                let on_disk = std::fs::read(&self.wal[n]).ok();
+                self.nodes[n] = None;
+                if let Some(bytes) = on_disk {
+                    let after_drop = std::fs::metadata(&self.wal[n]).map(|m| m.len()).unwrap_or(0);
+                    if after_drop != bytes.len() as u64 {
+                        self.cnt("crashes_that_lost_buffered_wal_bytes");
+                    }
+                    let _ = std::fs::write(&self.wal[n], &bytes);
+                }
                 self.mon.logs[n] = None;
-                self.note(format!("n{} CRASHES (WAL file kept)", n));
+                self.note(format!("n{} CRASHES (killed; WAL file keeps the bytes that were on disk)", n));
                 true
             }
             Ev::Restart { n } => {
@@ -2043,7 +2054,7 @@ fn main() {
         property: "C01",
         rule: "one case = one schedule (<= 800 simulator events) over 3 or 5 real RaftNode objects with real WALs; distinct by the hash of the executed event sequence (event kind, node, message key) together with the config; non-trivial if at least two leaderships were observed and at least one entry was reported committed (so the commit-agreement / leader-completeness oracles had something to compare), or if it ended in a violation",
         assumptions: vec![
-            "crashes are clean process crashes between two simulator events: every WAL record is whole (torn tails are C10's subject); messages addressed to a crashed node stay in flight and may be dropped or delivered after the restart".into(),
+            "crashes are process kills between two simulator events: the WAL file keeps the bytes that were on disk at that moment (bytes still in user-space buffers are lost); every WAL record is whole (torn tails are C10's subject); messages addressed to a crashed node stay in flight and may be dropped or delivered after the restart".into(),
             "election timers are simulator events: election_timeout.0 = 8 s, reset_heartbeat_for_election() makes a timer 'run out'; the election-timeout event runs the real tick_async".into(),
             "with enable_pre_vote=true the pinned tree can never broadcast RequestVote from its run loop (a won pre-vote calls the synchronous start_election(), which builds the RequestVote and discards it), so pre-vote configs additionally fire start_election_async() directly; Raft safety must hold for arbitrary election starts, so this cannot raise a false alarm".into(),
             "membership is fixed; no leadership transfer".into(),
